@@ -186,7 +186,16 @@ impl ObjectReceiver {
 
         if self.transfer_length.unwrap() == 0 {
             debug_assert!(self.block_writer.is_none());
-            self.complete(now);
+            // An empty object is complete once its writer has been opened,
+            // it must not be completed without writer or after a failed open
+            let is_opened = self
+                .object_writer
+                .as_ref()
+                .map(|writer| writer.state == ObjectWriterSessionState::Opened)
+                .unwrap_or(false);
+            if is_opened {
+                self.complete(now);
+            }
             return Ok(());
         }
 
